@@ -195,11 +195,12 @@ class C11(PropBase):
                     else:
                         q = ls.search_from(rng, v, L, allow_gt=(rng.random() < 0.25)) if rng.random() < 0.85 else rng.choice(L)
                     m = {'u': ui, 'junk': with_junk, 'q': q}
+                    more.append(Case('unfold', [q, '0', '0', 'default'], 'unfold', dict(m, finder='unfold0')))      # before any finder saw the string
                     for cfg in cfgs:
                         more.append(Case('find_paths', [cfg, q], 'find', dict(m, finder='paths:' + cfg)))
                     more.append(Case('find_all', [q], 'find', dict(m, finder='all')))
                     more.append(Case('find_list', [L, q], 'find', dict(m, finder='list')))
-                    more.append(Case('unfold', [q, '0', '0'], 'unfold', dict(m)))
+                    more.append(Case('unfold', [q, '0', '0', 'default'], 'unfold', dict(m)))      # (spelled as the finders call it: the same cache entry)
                     if qi % 3 == 0 and not any(ch in q for ch in '?:'):
                         # the same search handed over as a Sid object (built from the plain string)
                         more.append(Case('find_paths', [default, q, 'sidarg'], 'find', dict(m, finder='paths-sidarg')))
@@ -243,7 +244,10 @@ class C11(PropBase):
                     c0, o0 = list(d.values())[0]
                     fails.append((c0, o0, 'finders do not fail alike on %r: %r' % (q, {k: o[:2] if o[0] != 'ok' else 'ok' for k, (_, o) in d.items()})))
                 continue
-            res = {k: sorted(o[1]) for k, (c, o) in d.items() if k != 'unfold'}
+            if 'unfold0' in d and d['unfold0'][1] != d['unfold'][1]:
+                fails.append((d['unfold'][0], d['unfold'][1], 'unfold_search(%r) answers %r before the finders searched that string and %r afterwards (one process)' % (
+                    q, d['unfold0'][1][1][:6], d['unfold'][1][1][:6])))
+            res = {k: sorted(o[1]) for k, (c, o) in d.items() if k not in ('unfold', 'unfold0')}
             # a Sid object built from the search string denotes the same search
             for k in list(res):
                 if k.endswith('-sidarg'):
